@@ -191,7 +191,7 @@ def run_evaluate(kc: KernelCase, DIM, joint, opts, stats, refcache):
     except Fault as f:
         info["steps"] = m.steps
         stats[f"evaluate fault {f.kind}"] += 1
-        out.append(finding(["C05"], "fault", f"evaluate kernel: {f}", cj(fault=str(f)),
+        out.append(finding(fault_props(kc, f), "fault", f"evaluate kernel: {f}", cj(fault=str(f)),
                            fault=f.kind, kernel="evaluate"))
         return out, info
     info["steps"] = m.steps
@@ -251,6 +251,16 @@ def run_evaluate(kc: KernelCase, DIM, joint, opts, stats, refcache):
     return out, info
 
 
+def fault_props(kc, f):
+    """A kernel that writes past an array it allocated for a sparse output (or keeps using an array it
+    has reallocated) cannot hand back arrays that supply every stored position: that is evidence
+    against C02 as well as C05."""
+    props = ["C05"]
+    if f.kind in ("oob-write", "use-after-realloc") and any(m == Mode.compressed for m in kc.ofmt.modes):
+        props.append("C02")
+    return props
+
+
 def _clause(problem: str) -> str:
     for key in ("pos[0]", "pos decreases", "pos has", "crd has", "not strictly increasing",
                 "outside dimension", "vals has", "uninitialised", "NULL", "freed", "stored twice"):
@@ -276,7 +286,7 @@ def run_assemble_compute(kc: KernelCase, DIM, joint, opts, stats, einfo):
         rv = m.call(fa, args)
     except Fault as f:
         stats[f"assemble fault {f.kind}"] += 1
-        out.append(finding(["C05"], "fault", f"assemble kernel: {f}", cj(fault=str(f)),
+        out.append(finding(fault_props(kc, f), "fault", f"assemble kernel: {f}", cj(fault=str(f)),
                            fault=f.kind, kernel="assemble"))
         return out, m.steps
     if rv != 0:
